@@ -80,8 +80,10 @@ Qed.
 Ltac keys_tac :=
   let a := fresh "a" in let b := fresh "b" in
   let Ha := fresh "Ha" in let Hb := fresh "Hb" in let Hc := fresh "Hc" in
-  intros a b Ha Hb Hc; cbn in Ha, Hb;
-  repeat (destruct Ha as [Ha|Ha]; [subst a|]); try contradiction;
+  intros a b Ha Hb Hc; unfold tested in Ha; cbn in Ha, Hb;
+  destruct Ha as [Ha|Ha];
+  repeat (destruct Ha as [Ha|Ha]; [try discriminate Ha; try (inversion Ha; subst)|]);
+  try contradiction;
   repeat (destruct Hb as [Hb|Hb]; [subst b|]); try contradiction;
   first [reflexivity | (vm_compute in Hc; discriminate)].
 
